@@ -55,6 +55,10 @@ SCENARIOS = {
     "tc-upgrade": ["chan servers=10.0.0.1 tries=2 timeout=1000",
                    "req tok=1 kind=send name=www.example.com type=1", "reply tx=-1 kind=tc", "proc r=-1", "procall",
                    "reply tx=-1 kind=noerror an=3 ttl=30", "procall"],
+    "tc-then-timeouts": ["chan servers=10.0.0.1,10.0.0.2 tries=2 timeout=1000",
+                         "req tok=1 kind=send name=www.example.com type=1", "req tok=2 kind=send name=b.example.com type=1 edns=1",
+                         "reply tx=0 kind=tc", "reply tx=1 kind=formerr", "procall", "adv 1000", "tick", "procall", "adv 2000", "tick",
+                         "adv 5000", "tick"],
     "reentrant-cancel": ["chan servers=10.0.0.1 tries=2 timeout=1000", "reaction idx=0 kind=send name=n1.example type=1",
                          "reaction idx=1 kind=cancel",
                          "req tok=1 kind=send name=a.example type=1 react=R0,R1", "req tok=2 kind=send name=b.example type=1 react=R0",
